@@ -87,6 +87,11 @@ def run(rep, tier):
         search.check_parity(rep_, prog)
         search.check_pruning(rep_, prog)
         c12.check_comparators(rep_, prog)
+        from . import c07
+        c07.r07k(rep_, prog)
+        search.check_combine_types(rep_, prog)
+    rep.rule('R02j', 'the saturating sum of the searches is applied in the distance type (no floating -> integral truncation of weights)', floor=4)
+    rep.rule('R07k', 'numeric_limits<T>::infinity() only for floating-point T (0 for integral weight types)', floor=0)
     run_rules(rep, tier, RULES, DOCS, extra=extra)
     rep.rule('R01e', 'parity propagation is an exclusive-or with "edge is signed" (trees, signed search, candidate test)', floor=3)
     search_positive(rep, ('R01e',))
